@@ -238,7 +238,9 @@ class LDAPSession:
 
                 self._process_incoming_message(msg)
 
-        except (ValueError, NotImplementedError) as e:
+        except (ValueError, NotImplementedError, RecursionError) as e:
+            # RecursionError is from a peer nesting values, like search
+            # filters, deeper than can be unpacked.
             self.state = SessionState.CLOSED
             self._outstanding_requests = set()
             raise ProtocolError(f"Received invalid data from the peer, connection closing: {e}") from e
